@@ -516,6 +516,45 @@ def rule_score_dominance(ck, facts):
         ck.ok(R, "score|exact-weight", {"counter": counter.short, "arms": n_arm})
 
 
+
+def rule_all_pairs(ck, facts):
+    """the planner scores every (old child, new child) pair before it asks the LCS"""
+    R = "C08.lcs"
+    fs = fns(facts)
+    planners = [f for f in fs if f.kind == "fn" and any(st[KIND] == "a" and st[5][0] == "agg" and st[5][1][0] == "adt" and st[5][1][1].endswith("CopyFromPatch") for _, st in f.all_stmts()) and any((callee(t) or "") == f.path for g in facts.family(ST, f.root) for _, t in g.calls())]
+    if len(planners) != 1:
+        return  # reported by the score-dominance rule's anchor
+    fam = facts.family(ST, planners[0].root)
+    NARROW = ("skip", "take", "step_by", "take_while", "skip_while", "map_while", "saturating_sub", "abs_diff", "windows", "chunks", "split_at")
+    n = 0
+    for g in fam:
+        di = DefIndex(g)
+
+        def is_len(op):
+            r = di.resolve(op)
+            if r[0] == "call":
+                return (callee(r[1]) or "").split("::")[-1] in ("len",)
+            if r[0] == "rv" and r[1][5][0] in ("len", "ptrmeta", "un") :
+                return True
+            return False
+
+        for b, st in g.all_stmts():
+            if st[KIND] == "a" and st[5][0] == "agg" and st[5][1][0] == "adt" and st[5][1][1].endswith("ops::Range") and len(st[5][2]) == 2:
+                n += 1
+                lo, hi = st[5][2]
+                key = "all-pairs|range|%s" % ("planner" if g.path == g.root else "closure")
+                if const_int(lo) == 0 and is_len(hi):
+                    ck.ok(R, key, {"range": "0..len"})
+                else:
+                    ck.bad(R, key, "%s walks children over a range that is not `0..len` of a child list (%s..%s): the LCS scores a pair it was not given as 0, so a surviving subtree that an edit moved outside the range is never paired and loses its words although the edit left it untouched" % (planners[0].short, "0" if const_int(lo) == 0 else "computed", "len" if is_len(hi) else "computed"), g.where(st))
+        for b, t in g.calls():
+            c = (callee(t) or "").split("::")[-1].split("<")[0]
+            if c in NARROW and (callee(t) or "").startswith(("std::", "core::", "<std::", "<core::", "<usize", "usize::")):
+                n += 1
+                ck.bad(R, "all-pairs|narrowing|%s" % c, "%s restricts which children it looks at with `%s`: every (old child, new child) pair must be scored, the LCS treats a missing pair as 'nothing in common'" % (planners[0].short, c), g.where(t))
+    ck.floor(R, "planner_child_ranges", n, 2)
+
+
 def rule_apply(ck, facts):
     R = "C08.apply"
     ck.rule(R, "the destination handed to apply_patches is a fresh zero-filled vector of plan.total_size with no write in between; apply_patches copies [src,src+size) to [dst,dst+size) of equal length; identical layouts return None before take_diff; no unsafe access")
@@ -913,6 +952,7 @@ def run(ck, facts, tier):
     rule_predicate(ck, facts)
     rule_lcs(ck, facts)
     rule_score_dominance(ck, facts)
+    rule_all_pairs(ck, facts)
     rule_apply(ck, facts)
     rule_addressing(ck, facts)
     rule_fast_path(ck, facts)
